@@ -2,7 +2,8 @@
    recoverFromErrorResponse, handlePrimaryKeepaliveMessage, handleXLogData) together with the
    connection manager's reconnect rule (replication/client/conn/manager.go: a new connection, with
    START_REPLICATION at the given LSN, is made only when there is none or it is closed).
-   Definitions only.  One model step = one iteration of the receive loop. *)
+   Definitions only.  One model step = one iteration of the receive loop, including the ticks
+   served by the blocked-output loop (WriteLoop) of handleXLogData inside it. *)
 From Bifrost.model Require Import Base.
 
 (* what the parser made of an XLogData payload; the parser itself is modelled in Parse.v *)
@@ -30,12 +31,17 @@ Inductive cev :=
 (* one loop iteration's inputs: did the progress ticker fire (polled at the loop head), the values
    waiting on the progress channel when handleProgress runs at the loop head, whether the
    channel is closed after them, then the receive result, then (for the handlers that call
-   handleProgress again: timeout, keepalive with reply) the values waiting at that second call *)
+   handleProgress again: timeout, keepalive with reply) the values waiting at that second call,
+   then (for an XLogData message that is forwarded: the WriteLoop at the end of handleXLogData)
+   one element per tick of the progress ticker served while the output channel is full: the
+   values waiting on the progress channel at that tick and whether the channel is closed after
+   them.  [i_blocked = []] = the output channel had room at once. *)
 Record citer := mkIter {
   i_tick : bool;
   i_prog : list N; i_pclosed : bool;
   i_ev : cev;
-  i_prog2 : list N; i_pclosed2 : bool }.
+  i_prog2 : list N; i_pclosed2 : bool;
+  i_blocked : list (list N * bool) }.
 
 Record cstate := mkCst {
   overall : N;          (* overallProgress *)
@@ -92,24 +98,49 @@ Definition handle_progress (s : cstate) (force : bool) (vs : list N) (closed : b
 
 Definition key_of (txn : string) (n : N) : string := (txn ++ "-" ++ dec n)%string.
 
-(* handleXLogData for a parsed message *)
-Definition handle_xlog (s : cstate) (wal : N) (k : xkind) : cstate * list cobs * bool (* fatal *) :=
+(* the ticker case of the WriteLoop at the end of handleXLogData, once per tick served while the
+   output channel is full: handleProgress(true).  Result: the state, the observations, and
+   whether a handleProgress call returned an error (progress channel closed) - the ticks after
+   that one never happen.  (The Go code has absorbed the values of the closing tick into
+   overallProgress when it returns the error; the client stops without using it again.) *)
+Fixpoint blocked_ticks (s : cstate) (bl : list (list N * bool)) : cstate * list cobs * bool :=
+  match bl with
+  | [] => (s, [], false)
+  | (vs, closed) :: r =>
+      match handle_progress s true vs closed with
+      | None => (s, [], true)
+      | Some (s1, o1) => let '(s2, o2, e) := blocked_ticks s1 r in (s2, o1 ++ o2, e)
+      end
+  end.
+
+(* WriteLoop: serve the blocked ticks, then hand the message [m] over; if handleProgress fails the
+   error is returned to Start (third component) and [m] is never forwarded *)
+Definition write_loop (s : cstate) (bl : list (list N * bool)) (m : cobs) : cstate * list cobs * bool :=
+  let '(sb, ob, e) := blocked_ticks s bl in
+  if e then (sb, ob, true) else (sb, ob ++ [m], false).
+
+(* handleXLogData for a parsed message; [bl] = the ticks served in its WriteLoop.  The state
+   updates (highestWalStart, sawCommit, transaction, timeBasedKey, firstIteration) are made before
+   the WriteLoop and are kept when it fails.  XShort, XBadText and the dropped BEGIN return
+   before the WriteLoop. *)
+Definition handle_xlog (s : cstate) (wal : N) (k : xkind) (bl : list (list N * bool))
+  : cstate * list cobs * bool (* fatal *) :=
   match k with
   | XShort => (s, [], false)
   | XBadText => (s, [], true)
   | XCommit t =>
       let h := if (highest s <? wal)%N then wal else highest s in
       let s1 := mkCst (overall s) h (ctxn s) (ckey s) true (first_iter s) (conn_open s) (hb_count s) (hb_slow s) (begins s) false in
-      (s1, [COut "COMMIT" (ctxn s1) (ckey s1) wal], false)
+      write_loop s1 bl (COut "COMMIT" (ctxn s1) (ckey s1) wal)
   | XBegin t =>
       let key := key_of t (begins s) in
       if negb (saw_commit s) && negb (first_iter s) then
         (* BEGIN although the previous transaction has no COMMIT: drop it, force a reconnect *)
         (mkCst (overall s) (highest s) t key false true false (hb_count s) (hb_slow s) (begins s + 1) false, [CClose], false)
       else
-        (mkCst (overall s) (highest s) t key false false (conn_open s) (hb_count s) (hb_slow s) (begins s + 1) false,
-         [COut "BEGIN" t key wal], false)
-  | XChange op => (s, [COut op (ctxn s) (ckey s) wal], false)
+        write_loop (mkCst (overall s) (highest s) t key false false (conn_open s) (hb_count s) (hb_slow s) (begins s + 1) false)
+                   bl (COut "BEGIN" t key wal)
+  | XChange op => write_loop s bl (COut op (ctxn s) (ckey s) wal)
   end.
 
 (* recoverFromErrorResponse: the synthetic COMMIT closes out a transaction only if one is open
@@ -163,7 +194,9 @@ Definition cstep (s : cstate) (it : citer) : cstate * list cobs :=
               if f then fatal s4 (o ++ o3) else (s4, o ++ o3)
           end
       | EXLog wal k =>
-          let '(s3, o3, f) := handle_xlog s2 wal k in
+          (* a non-nil error from handleXLogData (unparsable text, or handleProgress failing in the
+             WriteLoop) makes Start return: shutdown *)
+          let '(s3, o3, f) := handle_xlog s2 wal k (i_blocked it) in
           if f then fatal s3 (o ++ o3) else (s3, o ++ o3)
       end
   end.
